@@ -171,7 +171,7 @@ EXTRA5 = {
         'the database, the server or the connection; loops twice, try/handler states, lazily consumed generators) and Bridge/Purity proves purity_bodies_validate_first (empty for every command except EXEC and EVAL, whose errors are specified to follow a change) and purity_covers_all_commands. ',
  'C10': 'Round 5: (P)SUBSCRIBE/(P)UNSUBSCRIBE inside MULTI are refused (process_refused, dispatchBody_refused); life-cycle cases with coinciding channel / pattern names. ',
  'C11': 'Round 5 (FR.Props.C11r): reply_count_blocking - exactly when a BLPOP/BRPOP request parks (first pass finds no live non-empty list, the mode parks, the time-out is valid: no reply, connection parked on the given keys and database, paused on the asyncio front-end) and otherwise its ONE reply (popped pair, WRONGTYPE, invalid time-out, nil in a non-parking mode); '
-        'blocking_in_exec_one_reply (as an inner command of EXEC it never parks and contributes exactly one element). BRPOPLPUSH: the partial form of C04k (0 or 1 replies). ',
+        'blocking_in_exec_one_reply (as an inner command of EXEC it never parks and contributes exactly one element). FR.Props.C11s2: the same for BRPOPLPUSH (runCommand_brpoplpush_exact, reply_count_brpoplpush; an invalid time-out is refused by Signature.apply and changes nothing). ',
  'C12': 'Round 5, the well-lockedness hypothesis established statically for the current source (tie (a)): tools/gen_locks.py extracts, per method and nested function of FakeSocket / AsyncFakeSocket, the shared-state accesses and call edges with their lexical lock status (Generated/Locks); '
         'Bridge/Locks proves locks_sync_disciplined / locks_async_disciplined / locks_tables_meaningful on the generated tables; FR.Props.C12l.disciplined_sound: if the check passes, every access at the end of every call path of any length from every root happens with the lock held or is one of four '
         'benign accesses quoted from the code; bodies_run_under_the_lock. FR.Props.C12t links the table to the trace model: an operational semantics of one thread executing a command through the table (Exec), exec_accesses_locked (for a disciplined table every trace of every execution from a root has no discipline violation except the listed benign reads; brackets are well-formed), '
